@@ -58,6 +58,23 @@ def split_idx(p):
   return None
 
 
+def aligned_with(y, artifacts):
+  """Is the list term y index-aligned with (a sub-batch of) artifacts - the list itself, a comprehension over it, or a length-preserving helper applied
+  to such a comprehension?  Returns the base list term F, or None."""
+  if artifact_root(y, artifacts):
+    return strip_identity(y)
+  ya = y.as_atom()
+  if ya is not None and ya.kind == "call" and len(ya.args) >= 2:
+    # length-preserving helpers (summary proved by R-C03-DEDUP): BatchGCD
+    if ya.args[0] == P("lit", "rsa_util:BatchGCD"):
+      v = ya.args[1].as_atom()
+      if v is not None and v.kind == "map" and artifact_root(v.args[2], artifacts):
+        return strip_identity(v.args[2])
+  if ya is not None and ya.kind == "map" and artifact_root(ya.args[2], artifacts):
+    return strip_identity(ya.args[2])
+  return None
+
+
 def loop_covers(itv, artifacts):
   """Does the loop iterable enumerate every position of (a sub-batch of) artifacts?
   Returns the base list term F, or None."""
@@ -67,23 +84,12 @@ def loop_covers(itv, artifacts):
   a = p.as_atom()
   if a is None:
     return None
-  if a.kind == "enumerate" and artifact_root(a.args[0], artifacts):
-    return strip_identity(a.args[0])
+  if a.kind == "enumerate":
+    return aligned_with(a.args[0], artifacts)
   if a.kind == "range" and len(a.args) == 1:
     ln = a.args[0].as_atom()
     if ln is not None and ln.kind == "len":
-      y = ln.args[0]
-      if artifact_root(y, artifacts):
-        return strip_identity(y)
-      ya = y.as_atom()
-      if ya is not None and ya.kind == "call" and len(ya.args) >= 2:
-        # length-preserving helpers (summary proved by R-C03-DEDUP): BatchGCD
-        if ya.args[0] == P("lit", "rsa_util:BatchGCD"):
-          v = ya.args[1].as_atom()
-          if v is not None and v.kind == "map" and artifact_root(v.args[2], artifacts):
-            return strip_identity(v.args[2])
-      if ya is not None and ya.kind == "map" and artifact_root(ya.args[2], artifacts):
-        return strip_identity(ya.args[2])
+      return aligned_with(ln.args[0], artifacts)
   return None
 
 
